@@ -31,13 +31,45 @@ def build(u):
             u._log("E11", mn, it["span"][0], txt[:60], f"opaque token #{k}")
     for c in ["NAME_CLTV_DELTA", "NAME_POLICY_CLTV_DELTA"]:
         u.raw(f"pub const {c}: u8 = 0;   // only used inside an anyhow! message (not evaluated)\n")
+    # the provider constructor (contract proved in unit provider) and the manager constructor
+    pp = Src.get("payment_provider.rs")
+    h = Src.get("htlc_manager.rs")
+    u.raw("pub struct Rpc { pub _p: u8 }\npub mod rpc { pub trait ClnRpc {} impl ClnRpc for super::Rpc {} }\n")
+    u.raw("pub mod payment_provider {\nuse super::*;\nuse crate::rpc::ClnRpc;\npub trait PaymentProvider {}\n")
+    u.item(pp, "PayPaymentProvider", "struct")
+    u.spec("provider.rs", shared=True)
+    im = pp.find("PayPaymentProvider", "impl")
+    u._apply(pp, im["start"], im["open"] + 1, [])
+    u.raw("\n")
+    u.fn(pp, pp.find_fn_in(im, "new"), "payment_provider::PayPaymentProvider::new", stub=True)
+    u.raw("}\nimpl<R: ClnRpc> PaymentProvider for PayPaymentProvider<R> {}\n}\npub use payment_provider::{PayPaymentProvider, PaymentProvider};\n")
+    u.raw("pub mod block_watcher { pub trait BlockProvider {} pub struct BlockWatcher { pub _p: u8 } impl BlockProvider for BlockWatcher {} }\n"
+          "pub mod email { pub trait NotificationService {} pub struct EmailNotificationService { pub _p: u8 } impl NotificationService for EmailNotificationService {} }\n"
+          "pub mod store { pub trait Datastore {} pub struct ClnDatastore { pub _p: u8 } impl Datastore for ClnDatastore {} }\n"
+          "pub use block_watcher::{BlockProvider, BlockWatcher}; pub use email::{NotificationService, EmailNotificationService}; pub use store::{Datastore, ClnDatastore};\n"
+          "pub struct GetinfoResponse { pub id: PublicKey }\n")
+    u.raw("impl<K, V> HashMap<K, V> { #[verifier::external_body] pub fn new() -> (r: Self) { unimplemented!() } }\n"
+          "impl<T> Mutex<T> { #[verifier::external_body] pub fn new(t: T) -> (r: Self) { unimplemented!() } }\n")
+    u.raw("pub mod htlc_manager {\nuse super::*;\n")
+    u.item(h, "HtlcManager", "struct")
+    u.item(h, "HtlcManagerParams", "struct")
+    u.raw("pub struct PaymentState { pub _p: u8 }\n")
+    u.spec("config_manager.rs")
+    u.impl(h, "HtlcManager", ["new"], "htlc_manager")
+    u.raw("}\npub use htlc_manager::{HtlcManager, HtlcManagerParams};\n")
     u.spec("config.rs")
     f = mn.find("main", "fn")
     u.slice(mn, f, "main::main#options",
-            r"first:^let \w+(: \w+)? = !?cp\.option\(&OPTION_", r"^let mpp_timeout = Duration::from_secs\(mpp_timeout_secs\);",
-            "fn main__options(cp: &ConfiguredPlugin) -> (r: ::std::result::Result<(u16, TrampolineRoutingPolicy, Duration, bool, u64, bool), Error>)",
-            tail="Ok((cltv_delta, routing_policy, mpp_timeout, allow_self_route_hints, payment_timeout_secs, xpay))",
+            r"first:^let \w+(: \w+)? = !?cp\.option\(&OPTION_", r"^let payment_provider = Arc::new\(PayPaymentProvider::new\(",
+            "fn main__options(cp: &ConfiguredPlugin, rpc: Arc<Rpc>) -> (r: ::std::result::Result<(u16, TrampolineRoutingPolicy, Duration, bool, Arc<PayPaymentProvider<Rpc>>), Error>)",
+            tail="Ok((cltv_delta, routing_policy, mpp_timeout, allow_self_route_hints, payment_provider))",
             note="slice main#options: result tuple types are declared in the unit: cltv_delta u16 (forced: compared with the policy field cltv_expiry_delta: u16), "
-                 "routing_policy (real struct), mpp_timeout Duration (forced by Duration::from_secs(u64)), payment_timeout_secs u64 (NOT forced inside the slice: its only use, "
-                 "Duration::from_secs(payment_timeout_secs), is the next statement of main and takes u64), xpay bool")
+                 "routing_policy (real struct), mpp_timeout Duration (forced by Duration::from_secs(u64)), payment_provider Arc<PayPaymentProvider<Rpc>> (forced by the real constructor); parameter rpc: Arc<Rpc> declared")
+    u.slice(mn, f, "main::main#manager",
+            r"^let htlc_manager = Arc::new\(HtlcManager::new\(HtlcManagerParams", r"^let htlc_manager = Arc::new\(HtlcManager::new\(HtlcManagerParams",
+            "fn main__manager(allow_self_route_hints: bool, block_watcher: Arc<BlockWatcher>, cltv_delta: u16, info: GetinfoResponse, mpp_timeout: Duration, "
+            "notification_service: Arc<EmailNotificationService>, payment_provider: Arc<PayPaymentProvider<Rpc>>, routing_policy: TrampolineRoutingPolicy, store: Arc<ClnDatastore>) "
+            "-> (r: Arc<HtlcManager<BlockWatcher, EmailNotificationService, PayPaymentProvider<Rpc>, ClnDatastore>>)",
+            tail="htlc_manager",
+            note="slice main#manager: the wrapper's parameters are the locals the statement reads; their types are declared in the unit and forced by the real HtlcManagerParams field types")
     u.raw("} // verus!\nfn main() {}\n")
